@@ -32,6 +32,10 @@ class FakeUpstreams:
             s = await TcpOrigin(h, host="127.0.0.1").start()
             self.ports[proto] = s.port
             self.servers.append(s)
+        # the same HTTP upstream reached over IPv6: the proxy's outbound leg is then an IPv6 socket
+        s = await TcpOrigin(self.h_http, host="::1").start()
+        self.ports["http6"] = s.port
+        self.servers.append(s)
         return self
 
     async def stop(self):
@@ -344,7 +348,7 @@ async def main(args):
     closed_port = free_port()
     ports = {k: free_port() for k in ("http", "https", "socks", "socksauth", "quic", "api", "C.http", "C.api")}
     # routing by target port
-    R = {"direct": origin.port, "closed": closed_port, "fh": 1001, "fs5": 1002, "fs4": 1003, "deny": 1004, "norule": 1005, "lb": 1006}
+    R = {"direct": origin.port, "closed": closed_port, "fh": 1001, "fs5": 1002, "fs4": 1003, "deny": 1004, "norule": 1005, "lb": 1006, "fh6": 1007}
     listeners = [
         {"name": "http", "bind": "127.0.0.1:%d" % ports["http"]},
         {"name": "https", "type": "http", "bind": "127.0.0.1:%d" % ports["https"], "tls": tls_server()},
@@ -355,6 +359,7 @@ async def main(args):
     connectors = [
         {"name": "direct"},
         {"name": "fh", "type": "http", "server": "127.0.0.1", "port": fakes.ports["http"]},
+        {"name": "fh6", "type": "http", "server": "::1", "port": fakes.ports["http6"]},
         {"name": "fs5", "type": "socks", "server": "127.0.0.1", "port": fakes.ports["socks5"]},
         {"name": "fs4", "type": "socks", "server": "127.0.0.1", "port": fakes.ports["socks4"], "version": 4},
         {"name": "lb", "type": "loadbalance", "connectors": ["direct"], "algo": "rr"},
@@ -363,6 +368,7 @@ async def main(args):
         {"filter": "request.target.port == %d" % R["deny"], "target": "deny"},
         {"filter": "request.target.port == %d || request.target.port == %d" % (R["direct"], R["closed"]), "target": "direct"},
         {"filter": "request.target.port == %d" % R["fh"], "target": "fh"},
+        {"filter": "request.target.port == %d" % R["fh6"], "target": "fh6"},
         {"filter": "request.target.port == %d" % R["fs5"], "target": "fs5"},
         {"filter": "request.target.port == %d" % R["fs4"], "target": "fs4"},
         {"filter": "request.target.port == %d || request.feature == \"UdpForward\"" % R["lb"], "target": "lb"},
@@ -376,7 +382,7 @@ async def main(args):
         if port == R["direct"]:
             ts = [t for (t, p) in origin_accepts if p == origin.port]
             return min(ts) if ts else None
-        proto = {R["fh"]: "http", R["fs5"]: "socks5", R["fs4"]: "socks4"}.get(port)
+        proto = {R["fh"]: "http", R["fh6"]: "http", R["fs5"]: "socks5", R["fs4"]: "socks4"}.get(port)
         ts = [t for (t, pr, h, what) in fakes.events if pr == proto and h == host and what == "success-sent"]
         return min(ts) if ts else None
     env = {"ports": ports, "seed": args.seed, "first_upstream_event": first_upstream_event, "direct_port": R["direct"]}
@@ -397,6 +403,8 @@ async def main(args):
                 add(proto, "closed-port", "127.0.0.1", R["closed"])
                 add(proto, "deny", "deny.test", R["deny"])
                 add(proto, "no-rule", "norule.test", R["norule"])
+                add(proto, "ok", "ok.fh6x%d.test" % uid[0], R["fh6"])          # upstream reached over IPv6
+                add(proto, "upstream-refuse", "refuse.fh6x%d.test" % uid[0], R["fh6"])
                 for up, pt in (("fh", R["fh"]), ("fs5", R["fs5"]), ("fs4", R["fs4"])):
                     for beh in BEHAVIOURS:
                         tag = "%s.%s%d.test" % (beh, up, uid[0])
